@@ -132,7 +132,20 @@ func (w *world) runConcurrent(cops []cop, parks []*park, workers int, deadline t
 			} else if cops[i].ctxMs > 0 {
 				ctx, cancel = context.WithTimeout(ctx, time.Duration(cops[i].ctxMs)*time.Millisecond)
 			}
-			out := w.execCtx(ctx, cops[i].fields)
+			var out string
+			if cops[i].fields[0] == "spin" {
+				// spin <ms> <op…>: the op over and over for that long (a dense stream of cheap requests)
+				ms, _ := strconv.Atoi(cops[i].fields[1])
+				until := time.Now().Add(time.Duration(ms) * time.Millisecond)
+				n := 0
+				for time.Now().Before(until) {
+					out = w.execCtx(ctx, cops[i].fields[2:])
+					n++
+				}
+				out = fmt.Sprintf("spun:%d:%s", n, out)
+			} else {
+				out = w.execCtx(ctx, cops[i].fields)
+			}
 			cancel()
 			tr := time.Since(t0).Microseconds()
 			res[i] = fmt.Sprintf("%d,%d,%s", ti, tr, strings.ReplaceAll(out, " ", "+"))
